@@ -79,6 +79,15 @@ Theorem C19_no_range_panic : forall (rup : Z -> Z) (maxalloc : Z), (forall c, c 
 Proof. exact no_range_panic. Qed.
 Print Assumptions C19_no_range_panic.
 
+(* the one escape of C19_refines: grow (the only place that raises ErrTooLarge, and
+   it raises nothing else) does so only when the code's own overflow guard
+   (2*cap + n > maxInt) or the allocator limit is hit *)
+Theorem C19_toolarge_only_huge : forall (rup : Z -> Z) (maxalloc : Z), (forall c, c <= rup c) ->
+  forall s n p, inv s -> 0 <= n -> grow rup maxalloc s n = GPanic p ->
+  p = PTooLarge /\ (2 * cap s + n > maxInt \/ blen s + n > maxalloc \/ 2 * cap s > maxalloc).
+Proof. exact grow_toolarge. Qed.
+Print Assumptions C19_toolarge_only_huge.
+
 (* the hypothesis on the capacity rounding holds for Go's size classes, with
    which the correspondence check runs the model *)
 Theorem C19_go_rounding : forall c, c <= go_rup c.
